@@ -255,6 +255,9 @@ def classify(e: BaseException, input_mode: str) -> dict:
 		mode = 'disk' if any(fr.name == 'instantiate' and fr.filename.replace(os.sep, '/').endswith('lark/parser.py') for fr in frames) else 'memory'
 	tranp_frame = lambda tb: next((f'{fr.filename.replace(os.sep, "/").split("/rogw/tranp/")[1]}:{fr.name}' for fr in reversed(traceback.extract_tb(tb)) if '/rogw/tranp/' in fr.filename.replace(os.sep, '/')), None)
 	where = tranp_frame(root.__traceback__) or tranp_frame(e.__traceback__) or '?'
+	if stage == 'parse' and where.split(':')[0].endswith('loader.py'):
+		# the file could not be READ (bytes that are no text): that is the loading of the module, not a verdict of the parser on a text
+		stage, mode = 'deps', input_mode
 	is_app = lambda x: isinstance(x, Errors.Error)
 	reported = 'Foreign' if not is_app(e) else ('Syntax' if isinstance(e, Errors.Syntax) else 'Fatal' if stage == 'parse' else 'App')
 	return {'mode': mode, 'stage': stage, 'raised': 'App' if is_app(root) else 'Foreign', 'escaped': 'App' if is_app(e) else 'Foreign', 'reported': reported,
@@ -273,17 +276,19 @@ def _run_inputs(args) -> list[dict]:
 	since_reset: list = []
 	for index, (label, source) in enumerate(inputs):
 		for mode in ('memory', 'disk'):
+			if isinstance(source, bytes) and mode == 'memory':
+				continue  # an in-memory source is text by construction
 			if env is None or (index % 40 == 0 and mode == 'memory'):
 				env = Env(cache_dir=os.path.join(root, 'cache'), cache_enabled=False)
 				since_reset = []
-			rec = {'label': label, 'input_mode': mode, 'source': source, 'session': [x for x in since_reset[-6:]]}
+			rec = {'label': label, 'input_mode': mode, 'source': source if isinstance(source, str) else repr(source), 'session': [x for x in since_reset[-6:]]}
 			since_reset.append((label, mode))
 			# a process memoises mtime / hash / parse result per file: every on-disk input gets its own file
 			module_path = '__main__' if mode == 'memory' else f'vm.x{index}'
 			if mode == 'memory':
 				env.sources['__main__'] = source
 			else:
-				with open(os.path.join(root, 'vm', f'x{index}.py'), 'w') as f:
+				with open(os.path.join(root, 'vm', f'x{index}.py'), 'wb' if isinstance(source, bytes) else 'w') as f:
 					f.write(source)
 			signal.alarm(10)
 			try:
@@ -398,6 +403,18 @@ def run(ctx: Ctx) -> int:
 		inputs.append((f'ann:{d["place"]}:{d["ctor"]}:{d["n"]}:{i}', d['text']))
 	for i, src in enumerate(ILL_TYPED):
 		inputs.append((f'ill:{i}', src))
+	# resource faults of ErrFlowMut: nesting deeper than a recursive reader holds; bytes that are no text (disk only)
+	deep = {'paren': lambda d: 'x = ' + '(' * d + '1' + ')' * d + '\n', 'minus': lambda d: 'x = ' + '-' * d + '1\n', 'attr': lambda d: 'x = a' + '.b' * d + '\n',
+		'list': lambda d: 'x = ' + '[' * d + ']' * d + '\n', 'call': lambda d: 'x = ' + 'f(' * d + '1' + ')' * d + '\n'}
+	deeps = [json.loads(line) for line in mres.lines('DEEP ')]
+	bads = [json.loads(line) for line in mres.lines('BYTES ')]
+	if len(deeps) < 10 or len(bads) < 10:
+		raise Machinery('ErrFlowMut emitted no resource faults')
+	for d in deeps:
+		inputs.append((f'deep:{d["shape"]}:{d["depth"]}', deep[d['shape']](d['depth'])))
+	place = {'string': lambda b: b"s = 'a" + b + b"'\n", 'comment': lambda b: b'x = 1  # ' + b + b'\n', 'name': lambda b: b'v' + b + b' = 1\n', 'start': lambda b: b + b'x = 1\n'}
+	for i, d in enumerate(bads):
+		inputs.append((f'bytes:{d["place"]}:{i}', place[d['place']](bytes(d['bytes']))))
 	for i in range(400 if quick else 4000):
 		inputs.append((f'soup:{i}', token_soup(rnd)))
 	for i, src in enumerate(PROGRAMS):
@@ -411,7 +428,7 @@ def run(ctx: Ctx) -> int:
 	ctx.log(f'{len(inputs)} inputs x 2 storage modes run through the pipeline')
 
 	# the interactive loop: every kind of input, a valid text after each
-	it_inputs = list(inputs)
+	it_inputs = [x for x in inputs if isinstance(x[1], str)]  # what is typed is text
 	with ProcessPoolExecutor(max_workers=nproc) as ex:
 		sessions = list(ex.map(_interactive_session, [(it_inputs[i::nproc],) for i in range(nproc)]))
 	it_fail = [f for r in sessions for f in r['failures']]
